@@ -337,6 +337,36 @@ func runC06(w *W) {
 						w.Viol(fp, fmt.Sprintf("LunarMonth %s .Next(%d) = %s, expected %s (the month %d steps along the sequence of tables)", m.key(), n, got, e.key(), n), m.key())
 						continue
 					}
+					// the object reached by stepping is as good as a directly built one: a second step from it lands where the
+					// sequence says (second offsets rotate); C11 compares its accessors with those of the directly built month
+					if !disagree[e.key()] && !inReform(e.Y) {
+						n2 := []int{13, -13, 14, 1, -1, 25, -14, 12}[((i+n)%8+8)%8]
+						if k2 := k + n2; k2 >= 0 && k2 < len(seq) && seq[k2].Y >= 1 && seq[k2].Y <= 9998 {
+							spans := false
+							lo, hi := k, k2
+							if lo > hi {
+								lo, hi = hi, lo
+							}
+							for q := lo; q <= hi; q++ {
+								if disagree[seq[q].key()] || inReform(seq[q].Y) {
+									spans = true
+								}
+							}
+							if !spans {
+								var nx2 *calendar.LunarMonth
+								w.R.Transitions++
+								if msg, p := try(func() { nx2 = nx.Next(n2) }); p {
+									w.Viol(fmt.Sprintf("C06:Next(%d).Next(%d):panic:%s", n, n2, m.key()), msg, m.key())
+								} else if e2 := seq[k2]; nx2 == nil || nx2.GetYear() != e2.Y || nx2.GetMonth() != e2.M || nx2.GetFirstJulianDay() != e2.First {
+									got := "nil"
+									if nx2 != nil {
+										got = fmt.Sprintf("%d/%d", nx2.GetYear(), nx2.GetMonth())
+									}
+									w.Viol(fmt.Sprintf("C06:Next(%d).Next(%d):%s", n, n2, m.key()), fmt.Sprintf("LunarMonth %s .Next(%d).Next(%d) = %s, expected %s", m.key(), n, n2, got, e2.key()), m.key())
+								}
+							}
+						}
+					}
 					if n == 1 {
 						if e.First != m.First+float64(m.Days) {
 							w.Viol(fmt.Sprintf("C06:Next(1)-start:%s", m.key()), "Next(1) does not start the day after the month ends", m.key())
